@@ -60,7 +60,8 @@ def gen_cases(rng, tier):
                 fr.append([base[i] + rng.randint(-spread, spread) + DEN * rng.randint(-1, 1) for i in range(3)])
             pos.append(fr)
         cases.append({'m': m, 'orient': rng.choice(['asis', 'rot', 'params']), 'rseed': rng.randrange(10**6), 'sites8': [list(p) for p in pts],
-                      'labels': labels, 'mode': mode, 'radius': radius, 'frac': rng.choice([1.0, 1.0, 0.8, 0.5]), 'pos': pos})
+                      'labels': labels, 'mode': mode, 'radius': radius, 'frac': rng.choice([1.0, 1.0, 0.8, 0.5]), 'pos': pos,
+                      'site_scale': rng.choice([1.0, 1.0, 1.0, 0.96, 1.05])})
     return cases
 
 
@@ -82,7 +83,10 @@ def impl(case):
     lat = _lattice(case)
     pos = np.array(case['pos'], dtype=float) / DEN
     traj = Trajectory(species=[Element('Li')] * pos.shape[1], coords=pos, lattice=lat, time_step=2e-15, metadata={'temperature': 300})
-    sites = Structure(lattice=lat, species=['Li'] * len(case['sites8']), coords=np.array(case['sites8'], dtype=float) / 8,
+    # the site structure may come in a slightly different cell than the simulation (same fractional coordinates): distances are those of the simulation cell
+    from pymatgen.core import Lattice
+    slat = lat if case.get('site_scale', 1.0) == 1.0 else Lattice(np.array(lat.matrix) * case['site_scale'])
+    sites = Structure(lattice=slat, species=['Li'] * len(case['sites8']), coords=np.array(case['sites8'], dtype=float) / 8,
                       labels=[LABELS[k] for k in case['labels']])
     out = {}
     import copy
